@@ -139,6 +139,18 @@ func c49(c *Ctx) {
 			if !c.Expect(size != nil, app, f, st.fn+":match-size", "match size (prefix bits or unspecified) not found") {
 				continue
 			}
+			for i, e := range size.Edges {
+				pr := size.Block().Preds[i]
+				fs := append(append([]Fact(nil), FactsAtBlock(pr)...), edgeOnlyFacts(pr, size.Block())...)
+				if CallRes(CalleeX("net/netip", "Prefix.Bits"), 0)(e) {
+					_, ok := hasFact(fs, Truth(valid, true))
+					c.Expect(ok, app, f, st.fn+":bits-only-for-a-real-prefix", "the prefix length is used for an unspecified prefix")
+				} else {
+					_, ok := hasFact(fs, Truth(valid, false))
+					c.Expect(ok, app, f, st.fn+":unspecified-size-only-without-a-prefix", "a real prefix is ranked as unspecified (its length is ignored)")
+				}
+			}
+			c.Expect(c.NoEarlyExit(f, AnyV, st.fn+":every-entry-considered") >= 1, app, f, st.fn+":scan-found", "no scan over the entries")
 			isSize := func(v ssa.Value) bool { return v == ssa.Value(size) }
 			c49BestSoFar(c, f, app, isSize, st.fn)
 			el := appendedElems(app)
@@ -150,6 +162,8 @@ func c49(c *Ctx) {
 				c.MustFact(r, "exactly-one-survivor", CmpInt(LenOf(AnyV), token.EQL, 1))
 			} else if !ConstNil(r.Results[1]) {
 				c.MustFact(r, "tie-is-an-error", CmpInt(LenOf(AnyV), token.NEQ, 1))
+			} else {
+				c.MustFact(r, "no-match-only-when-nothing-survived", CmpInt(LenOf(AnyV), token.EQL, 0))
 			}
 		}
 		// source type stage
@@ -193,6 +207,7 @@ func c49(c *Ctx) {
 					}
 				}
 				c49BestSoFar(c, ft, app, isM, "type")
+				c.Expect(c.NoEarlyExit(ft, AnyV, "type:every-entry-considered") >= 1, app, ft, "type:scan-found", "no scan over the entries")
 			}
 			c.MustFact(app, "type:nil-prefix-sets-not-collected", NotNil(AnyV))
 		}
@@ -207,11 +222,15 @@ func c49(c *Ctx) {
 			switch {
 			case exact(v):
 				ne++
+				c.MustFact(r, "exact-port-chain-returned-when-present", NotNil(exact))
 			case wild(v):
 				nw++
 				c.MustFact(r, "wildcard-port-only-without-exact-port", IsNil(exact))
+				c.MustFact(r, "wildcard-port-chain-returned-when-present", NotNil(wild))
 			default:
-				c.Expect(ConstNil(v), r, fp, "port-result", "unexpected port-stage result")
+				if c.Expect(ConstNil(v), r, fp, "port-result", "unexpected port-stage result") {
+					c.MustFactAny(r, "no-chain-only-without-entry-or-without-exact-and-wildcard", IsNil(ParamV("spe")), IsNil(wild))
+				}
 			}
 		}
 		c.Expect(ne == 1 && nw == 1, nil, fp, "exact-then-wildcard", "expected an exact-port return and a wildcard-port return")
